@@ -21,6 +21,11 @@ import (
 	"encoding/json"
 	"fmt"
 	"go/ast"
+	"sync"
+	"time"
+
+	"github.com/google/mtail/internal/metrics"
+	"github.com/google/mtail/internal/metrics/datum"
 	"os"
 	"os/exec"
 	"path/filepath"
@@ -82,6 +87,19 @@ func classOf(s xlate.Site) string {
 }
 
 func main() {
+	if n := os.Getenv("C11_FIRST_TOUCH"); n != "" {
+		// child mode: a fatal "concurrent map writes" must not take the harness down
+		rounds := 0
+		fmt.Sscan(n, &rounds)
+		vlib.QuietGlog()
+		fs := firstTouch(rounds, 8)
+		res := make([][2]string, 0, len(fs))
+		for _, f := range fs {
+			res = append(res, [2]string{f.class, f.what})
+		}
+		_ = json.NewEncoder(os.Stdout).Encode(res)
+		return
+	}
 	a := vlib.ParseArgs()
 	if a.Replay != "" {
 		fmt.Println("C11 replays name a (function, field) pair; re-run `tools/vcheck C11` to re-derive it from the source")
@@ -152,8 +170,21 @@ func main() {
 					st.Fn, st.Field, st.Pos, st.Kind, e.Fn), caseJ{What: "static", Fn: e.Fn, Reported: []xlate.Site{st}})
 			}
 		}
+		stale := xlate.StaleViolations(ir)
+		for _, s := range stale {
+			st := x.Sites[s]
+			rep = append(rep, xlate.Site{Fn: st.Fn, Field: "stale write of " + st.Field, Pos: st.Pos, Kind: st.Kind})
+			cl := "stale-write:" + st.Fn + ":" + st.Field
+			out.Count("flagged " + cl)
+			if !seenClass[cl] {
+				seenClass[cl] = true
+				out.Violate(cl, fmt.Sprintf("%s writes %s at %s in a critical section other than the one in which it last read it "+
+					"(check-then-act across a release of the guarding lock; reached from entry %s): concurrent callers can both act on the same stale answer",
+					st.Fn, st.Field, st.Pos, e.Fn), caseJ{What: "static-atomicity", Fn: e.Fn, Reported: []xlate.Site{st}})
+			}
+		}
 		id := out.NextID()
-		out.Add(vlib.App("CFunc", vlib.N(id), vlib.N(uint64(i)), xlate.LockCoq(ir), nlist(viol)),
+		out.Add(vlib.App("CFunc", vlib.N(id), vlib.N(uint64(i)), xlate.LockCoq(ir), nlist(viol), nlist(stale)),
 			caseJ{What: "entry", Fn: e.Fn, IR: ir, Reported: rep}, touchesShared(ir))
 		out.Count("entry " + e.Pkg)
 		allIR[e.Fn] = ir
@@ -168,6 +199,20 @@ func main() {
 	if a.Out != "" {
 		vlib.WriteJSON(filepath.Join(a.Out, "lockir.json"), map[string]any{"ir": allIR, "sites": x.Sites})
 	}
+
+	// search aid: concurrent first touch of the same new label sets on a real Metric
+	rounds := 3000
+	if a.Thorough() {
+		rounds = 20000
+	}
+	for _, ft := range firstTouchChild(rounds) {
+		out.Count("first-touch " + ft.class)
+		if !seenClass[ft.class] {
+			seenClass[ft.class] = true
+			out.Violate(ft.class, ft.what, map[string]any{"what": "first-touch", "rounds": rounds, "workers": 8, "detail": ft.what})
+		}
+	}
+	out.Extra["first_touch"] = fmt.Sprintf("%d rounds x 8 goroutines per metric type", rounds)
 
 	// search aid: -race stress
 	dur := "3s"
@@ -269,6 +314,116 @@ func setSourceOnPublished(root string) []string {
 	})
 	sort.Strings(bad)
 	return bad
+}
+
+type ftFinding struct{ class, what string }
+
+// firstTouchChild runs firstTouch in a child process (this binary again).
+func firstTouchChild(rounds int) []ftFinding {
+	cmd := exec.Command(os.Args[0])
+	cmd.Env = append(os.Environ(), fmt.Sprintf("C11_FIRST_TOUCH=%d", rounds))
+	var stderr strings.Builder
+	cmd.Stderr = &stderr
+	outb, err := cmd.Output()
+	var res [][2]string
+	if json.Unmarshal(outb, &res) == nil && err == nil {
+		var fs []ftFinding
+		for _, r := range res {
+			fs = append(fs, ftFinding{r[0], r[1]})
+		}
+		return fs
+	}
+	msg := stderr.String()
+	if i := strings.Index(msg, "fatal error"); i >= 0 {
+		msg = msg[i:]
+	}
+	if i := strings.Index(msg, "\n"); i >= 0 {
+		msg = msg[:i]
+	}
+	return []ftFinding{{"first-touch:crash:Metric.GetDatum",
+		fmt.Sprintf("concurrent first touches of one label set crashed the process: %s (%v)", msg, err)}}
+}
+
+// firstTouch: workers goroutines ask one metric for the same, not yet existing,
+// label set at the same moment and increment / observe it once; afterwards
+// every label set must exist exactly once and hold every increment.
+func firstTouch(rounds, workers int) []ftFinding {
+	var out []ftFinding
+	ts := time.Unix(1, 0)
+	for _, typ := range []metrics.Type{metrics.Int, metrics.Buckets} {
+		kind := metrics.Counter
+		if typ == metrics.Buckets {
+			kind = metrics.Histogram
+		}
+		m := metrics.NewMetric("ft", "prog", kind, typ, "code")
+		if typ == metrics.Buckets {
+			m.Buckets = []datum.Range{{Min: 0, Max: 1}, {Min: 1, Max: 2}}
+		}
+		for r := 0; r < rounds; r++ {
+			label := fmt.Sprintf("code-%d", r)
+			start := make(chan struct{})
+			var wg sync.WaitGroup
+			for w := 0; w < workers; w++ {
+				wg.Add(1)
+				go func() {
+					defer wg.Done()
+					<-start
+					d, err := m.GetDatum(label)
+					if err != nil {
+						return
+					}
+					if typ == metrics.Int {
+						datum.IncIntBy(d, 1, ts)
+					} else {
+						datum.Observe(d, 0.5, ts)
+					}
+				}()
+			}
+			close(start)
+			wg.Wait()
+		}
+		m.RLock()
+		n := len(m.LabelValues)
+		seen := map[string]int{}
+		for _, lv := range m.LabelValues {
+			seen[strings.Join(lv.Labels, "\x00")]++
+		}
+		lost, firstLost := 0, ""
+		for r := 0; r < rounds; r++ {
+			lv := m.FindLabelValueOrNil([]string{fmt.Sprintf("code-%d", r)})
+			got := int64(-1)
+			if lv != nil {
+				if typ == metrics.Int {
+					got = datum.GetInt(lv.Value)
+				} else {
+					got = int64(datum.GetBucketsCount(lv.Value))
+				}
+			}
+			if got != int64(workers) {
+				lost += workers - int(got)
+				if firstLost == "" {
+					firstLost = fmt.Sprintf("code-%d = %d, want %d", r, got, workers)
+				}
+			}
+		}
+		m.RUnlock()
+		dups := 0
+		for _, c := range seen {
+			if c > 1 {
+				dups += c - 1
+			}
+		}
+		if n != rounds || dups > 0 {
+			out = append(out, ftFinding{"first-touch:duplicate-label-set:Metric.GetDatum",
+				fmt.Sprintf("after %d concurrent first touches by %d goroutines each, the %v metric holds %d label values (%d duplicates), want %d",
+					rounds, workers, typ, n, dups, rounds)})
+		}
+		if lost != 0 {
+			out = append(out, ftFinding{"first-touch:lost-increment:Metric.GetDatum",
+				fmt.Sprintf("%d of %d increments lost on the %v metric (first: %s)", lost, rounds*workers, typ, firstLost)})
+		}
+	}
+	return out
 }
 
 type raceRep struct {
